@@ -766,6 +766,13 @@ func (s *Server) enableProtectionAfterPause() {
 	s.serverLock.Lock()
 	defer s.serverLock.Unlock()
 
+	// The pause may have been cancelled or replaced by another one since the
+	// goroutine has been started; a switch made meanwhile must not be undone.
+	_, disabledUntil := s.dnsFilter.ProtectionStatus()
+	if disabledUntil == nil || time.Now().Before(*disabledUntil) {
+		return
+	}
+
 	s.dnsFilter.SetProtectionStatus(true, nil)
 
 	log.Info("dns: protection is restarted after pause")
